@@ -327,6 +327,8 @@ def main():
                        "DistributedConfiguration(size, rank, parallel_level=1) installed in the Manager",
                        "Python's // and % on ints with positive divisor are Z.div / Z.modulo"]
     chk.prove()
+    import translate
+    translate.static_tie(cm, chk, PID, cm.REPO)      # second, static tie: model regenerated from the current source
     if args.replay:
         rep = json.load(open(args.replay))
         cases = [rep["input"]] if isinstance(rep.get("input"), dict) and "kind" in rep["input"] else []
